@@ -67,3 +67,23 @@ Theorem C06_msgpack_json_msgpack :
       jm_output (json_reader (jwrite_docs fmt_f64 js)) = flat_map enc_val vs /\
       jm_output (json_slice (jwrite_docs fmt_f64 js)) = flat_map enc_val vs.
 Proof. exact msgpack_json_msgpack. Qed.
+
+(* The other direction of the pair, JSON -> MessagePack -> JSON, with no premise
+   at all (floats travel as their 64 bits): for every stream of values JSON
+   carries (strings valid UTF-8, lengths and integers within MessagePack's
+   ranges, nesting within the limit), the MessagePack xt writes from the JSON
+   reader's events is the canonical encoding of the values; both MessagePack
+   loops read it to the end; and the JSON writer, driven by the events they
+   produce, writes exactly the bytes it writes for the values directly - what
+   JSON -> JSON writes, one line per document, whatever the float formatter. *)
+From XtModel Require Import Utf8 JsonRoundTripProofs.
+
+Theorem C06_json_msgpack_json :
+  forall (fmt : N -> bytes) (js : list jval),
+    Forall jencodable js ->
+    let mp := flat_map enc_evs (map jevs js) in
+    mp = flat_map enc_val (map to_mval js) /\
+    mm_ok (transcode_reader utf8_valid mp) = true /\ mm_ok (transcode_slice utf8_valid mp) = true /\
+    json_of_docs fmt (fst (transcode_reader utf8_valid mp)) = Some (jwrite_docs fmt js) /\
+    json_of_docs fmt (fst (transcode_slice utf8_valid mp)) = Some (jwrite_docs fmt js).
+Proof. exact json_msgpack_json. Qed.
